@@ -37,7 +37,7 @@ var propConfigs = map[string]*propConfig{
 		"float16/float32, fixed point, FloPoCo and linear-quantiser import/export go through strconv.ParseFloat and float scaling: floating point is outside this family; only the integer notations (unsigned, signed, bin, hex) are under functional contract",
 		"the regular languages are those of Go's regexp/syntax parse of the pattern strings found in the importMatchers methods; runes above U+2FFFF are clipped (SMT-LIB string alphabet)",
 	}},
-	"C09": {pkgs: []string{"./pkg/procbuilder"}, notes: []string{
+	"C09": {pkgs: []string{"./pkg/procbuilder", "./pkg/simbox"}, notes: []string{
 		"decided: every Opcode.Simulate (all opcode types except the nine emulator opcodes, which send on the VM's command channel) writes only cells of the VM it is given and reads only that VM and its machine description; run-time panics and callee preconditions are assumed not to occur (frameonly contracts)",
 		"not decided: the goroutine scheduler, the per-tick channel barrier of bondmachine.VM.Step, GOMAXPROCS, the race detector, and simbox.DelayDistribution (draws from the process-wide math/rand source by design)",
 		"bit-reinterpretation helpers (Int8bits..., unsafe.Pointer casts) and the fixed-point arithmetic helpers are trusted to be functions of their arguments",
@@ -117,7 +117,7 @@ func cmdCheck(args []string) {
 	// functions under contract for this property
 	var keys []string
 	for k, fc := range eng.contracts {
-		if fc.Extern || strings.HasPrefix(k, "iface:") {
+		if fc.Extern || strings.HasPrefix(k, "iface:") || strings.HasPrefix(k, "functype:") {
 			continue
 		}
 		for _, p := range fc.Props {
@@ -165,6 +165,26 @@ func cmdCheck(args []string) {
 				continue
 			}
 			tasks = append(tasks, verifyTask{fk, func() *VC { return eng.verifyAgainstIface(fn, ifc, eng.contracts[funcKey(fn)]) }})
+		}
+	}
+	// function-type contracts: every anonymous function of that signature in the package
+	for k, fc := range eng.contracts {
+		if !strings.HasPrefix(k, "functype:") {
+			continue
+		}
+		use := false
+		for _, p := range fc.Props {
+			if p == *prop {
+				use = true
+			}
+		}
+		if !use {
+			continue
+		}
+		fc := fc
+		for _, fn := range eng.functypeTargets(k) {
+			fn := fn
+			tasks = append(tasks, verifyTask{funcKey(fn) + "@functype", func() *VC { return eng.verifyAgainstIface(fn, fc, nil) }})
 		}
 	}
 	for i, vc := range runTasks(tasks, 8) {
